@@ -92,6 +92,19 @@ def replay(path):
             fh.write(det["input"])
         import subprocess
 
+        hist = det.get("history") or []
+        if hist and all(isinstance(h, str) for h in hist):
+            # an expansion history (C20): replay the whole sequence in ONE process, every position against a fresh process
+            lines = []
+            for h in hist:
+                m = re.match(r"^(\w+)!\{ (.*) \}$", h, flags=re.S)
+                lines.append("%s\t%s" % (m.group(1), m.group(2)) if m else "%s\t%s" % (det["config"], h))
+            with open(tmp, "w") as fh:
+                fh.write("\n".join(lines) + "\n")
+            for k in (1, 2):
+                p = subprocess.run([exe, "c20", "seq", tmp], stdout=subprocess.PIPE, stderr=subprocess.PIPE, text=True)
+                print("run %d (history of %d expansions in one process):\n%s" % (k, len(lines), p.stdout.strip()[:3000]))
+            return 0
         for k in (1, 2):
             p = subprocess.run([exe, "expand", det["config"], tmp], stdout=subprocess.PIPE, stderr=subprocess.PIPE, text=True)
             print("run %d: %s!{ %s } ->\n  %s" % (k, det["config"], det["input"], p.stdout.strip()[:1500]))
